@@ -22,7 +22,12 @@ Symbols: ["lit", leaf] | ["re", id] | ["nt", name, sender, recipient]; helper no
 to `<*<node id>:<j>*>` exactly like `FV.Earley.ntName` does for `NT.impl n j`.
 
 The model side is asked with the *variant* of the parser that harness/translate_earley.py reads from the source
-(`model_request(real, task, variant, fuel)`): admission policy, `{n,}` compilation, completing `predict`, scanner guards.
+(`model_request(real, task, variant, fuel)`): admission policy, `{n,}` compilation, completing `predict`, scanner guards;
+the key `cutShort` of the variant (the source has `ParseState.cut_short`) is a parameter of the PREFIX-mode model only
+(`prefix_request`; op `parse` does not read it).  `ParseState.cut_short` is observed on the real side: `res["marked"]` /
+`rec["marked_before_last"]` count marked states where the model says there are none (COMPLETE mode; the columns before
+the last of a prefix run), `rec["lastB"]` is the last column of a prefix run as the end-of-input pass left it (before the
+final `place_repetition_shortcut`, which re-creates states without the flag), every state with its two flags.
 """
 from __future__ import annotations
 
@@ -61,6 +66,7 @@ class _Reg:
     nrequests = 0
     installed = False
     limit: Optional[int] = None      # None = unmetered (C04); set per request from task["step_limit"]
+    last_b: Optional[list] = None    # (column object, [(state, is_incomplete, cut_short)]) before the final shortcut
     per_request = False              # the limit applies to the metered steps of ONE parse request (fuzz runs)
     total_budget: Optional[int] = None   # with per_request: stop the whole run after so many steps (no verdict)
 
@@ -119,6 +125,17 @@ def _install() -> None:
             raise StepLimit()
         return orig_complete(self, *a, **k)
 
+    orig_shortcut = IterativeParser.place_repetition_shortcut
+
+    def shortcut(self, table, k):
+        # the last column as the end-of-input pass of a prefix parse left it: `place_repetition_shortcut` builds fresh
+        # `ParseState`s (no `cut_short`), so the flags are read before it runs
+        if k == len(table) - 1:
+            _Reg.last_b = (table[k], [(s, bool(s.is_incomplete), bool(getattr(s, "cut_short", False)))
+                                      for s in table[k].states])
+        return orig_shortcut(self, table, k)
+
+    IterativeParser.place_repetition_shortcut = shortcut
     orig_new_parse = IterativeParser.new_parse
     orig_consume = IterativeParser._consume
 
@@ -150,6 +167,12 @@ def _reset() -> None:
     _Reg.pred = []
     _Reg.request = None
     _Reg.nrequests = 0
+    _Reg.last_b = None
+
+
+def marked(cols: list) -> int:
+    """states with `cut_short` set (the attribute does not exist before the repair of C19:F68)"""
+    return sum(1 for c in cols for s in c.states if getattr(s, "cut_short", False))
 
 
 # ------------------------------------------------------------------------------------------------
@@ -457,6 +480,8 @@ def real_case(task: dict) -> dict:
         # (for a run stopped by the step meter: the chart as far as it got, for the lock-step prefix comparison)
         try:
             res["cols"] = [[namer.state(s) for s in c.states if not s.is_incomplete] for c in cols]
+            # COMPLETE mode never marks a state (`C06_cut_short_irrelevant_in_complete_mode`): observed
+            res["marked"] = marked(cols)
             res["pred"] = pred_record(cols, namer)
             res["forest"] = [gio.tree_to_json(t) for t in trees]
             res["out"] = [observe_tree(t, word, start) for t in trees]
@@ -538,6 +563,11 @@ def other_modes(task: dict, word, start: str) -> dict:
                     # per column the admitted states; the incomplete ones (last column) carry their flag
                     rec["cols"] = [[namer.state(s) + ([bool(s.is_incomplete)] if (k == last or s.is_incomplete) else [])
                                     for s in c.states] for k, c in enumerate(cols)]
+                    rec["marked_before_last"] = marked(cols[:last]) if last >= 0 else 0
+                    lb = _Reg.last_b
+                    if st == "ok" and lb is not None and last >= 0 and lb[0] is cols[last]:
+                        # (the shortcut replaces states by new objects, it does not change the old ones)
+                        rec["lastB"] = [namer.state(s0) + [inc, cut] for (s0, inc, cut) in lb[1]]
                     rec["pred"] = pred_record(cols, namer)
                     rec["forest"] = [gio.tree_to_json(t) for t in ptrees]
                     rec["out"] = [observe_partial(t, word) for t in ptrees]
